@@ -295,9 +295,17 @@ def conformance(limit: int = 400) -> dict:
     from harness.zoo import all_vectors
     from vlib import shim_conformance as SC
 
-    vecs = list(all_vectors(lambda s: decode_signature(s, Cur()), SEL_LEN, limit=limit * 50))
-    step = max(1, len(vecs) // limit)
-    vecs = vecs[::step]
+
+    vecs = []
+    for ctx in range(5):  # the same share of the sample for every context (the enumeration is depth-first)
+        def dec(s, ctx=ctx):
+            if rd(s, Cur(), 5) != ctx:
+                raise OutOfRange
+            return decode_signature(s, Cur())
+
+        part = list(all_vectors(dec, SEL_LEN, limit=limit * 10))
+        step = max(1, len(part) // max(1, limit // 5))
+        vecs += part[::step]
     fun_src, cls_src, built_funcs, built_methods = [], [], [], []
     for i, vec in enumerate(vecs):
         ctx, params = decode_signature(list(vec), Cur())
@@ -315,7 +323,7 @@ def conformance(limit: int = 400) -> dict:
         else:
             fun_src.append(src)
             built_funcs.append(node)
-    source = "CONST = 3\n\n\ndef g() -> int: ...\n\n\n" + "\n".join(fun_src) + "\n\nclass K:\n" + "".join(cls_src)
+    source = "CONST = 3\n\n\ndef g() -> int: ...\n\n\n" + "\n".join(fun_src) + "\n\nclass K:\n" + ("".join(cls_src) or "    pass\n")
     g = shim.func_def("g", "pkg.m.g", [], ret=shim.instance("builtins.int"))
     const = shim.assignment([shim.name_expr("CONST", "pkg.m.CONST")])
     tree = shim.mypy_file("pkg.m", "pkg/m.py", defs=[const, g, *built_funcs, shim.class_def("K", "pkg.m.K", built_methods)])
